@@ -39,6 +39,7 @@ func (r *rootSet) add(o *rootSet) {
 
 // Summary of one function.
 type Summary struct {
+	Reads   map[int]bool // parameter indices whose pointee may be loaded from
 	Writes  map[int]bool // parameter indices (receiver = 0; free variables after the parameters) written through
 	Returns map[int]bool // parameters a pointer-like result may alias
 	// WritesGlobals: module globals written (directly or through callees)
@@ -60,7 +61,7 @@ func New(p *load.Program, asmWrites map[string][]int) *Mod {
 	m := &Mod{P: p, Sum: map[*ssa.Function]*Summary{}, AsmWrites: asmWrites, roots: map[*ssa.Function]map[ssa.Value]*rootSet{}}
 	m.funcs = p.ModuleFuncs()
 	for _, fn := range m.funcs {
-		m.Sum[fn] = &Summary{Writes: map[int]bool{}, Returns: map[int]bool{}, WritesGlobals: map[string]string{}}
+		m.Sum[fn] = &Summary{Reads: map[int]bool{}, Writes: map[int]bool{}, Returns: map[int]bool{}, WritesGlobals: map[string]string{}}
 		if len(fn.Blocks) == 0 {
 			// assembly
 			name := load.FuncName(fn)
@@ -73,6 +74,11 @@ func New(p *load.Program, asmWrites map[string][]int) *Mod {
 					if pointerLike(prm.Type()) {
 						m.Sum[fn].Writes[i] = true
 					}
+				}
+			}
+			for i, prm := range fn.Params {
+				if pointerLike(prm.Type()) {
+					m.Sum[fn].Reads[i] = true
 				}
 			}
 		}
@@ -349,7 +355,7 @@ type Write struct {
 // analyse recomputes the summary of fn; returns true if it grew.
 func (m *Mod) analyse(fn *ssa.Function) bool {
 	s := m.Sum[fn]
-	before := len(s.Writes) + len(s.Returns) + len(s.WritesGlobals)
+	before := len(s.Writes) + len(s.Returns) + len(s.WritesGlobals) + len(s.Reads)
 	memo := map[ssa.Value]*rootSet{}
 	m.roots[fn] = memo
 	live := load.LiveBlocks(fn)
@@ -371,6 +377,16 @@ func (m *Mod) analyse(fn *ssa.Function) bool {
 			switch x := in.(type) {
 			case *ssa.Store:
 				mark(m.rootsOf(fn, x.Addr, memo, 0), x.Pos())
+			case *ssa.UnOp:
+				if x.Op == token.MUL {
+					for i := range m.rootsOf(fn, x.X, memo, 0).params {
+						s.Reads[i] = true
+					}
+				}
+			case *ssa.Lookup:
+				for i := range m.rootsOf(fn, x.X, memo, 0).params {
+					s.Reads[i] = true
+				}
 			case *ssa.MapUpdate:
 				mark(m.rootsOf(fn, x.Map, memo, 0), x.Pos())
 			case *ssa.Send:
@@ -389,7 +405,7 @@ func (m *Mod) analyse(fn *ssa.Function) bool {
 			}
 		}
 	}
-	return len(s.Writes)+len(s.Returns)+len(s.WritesGlobals) != before
+	return len(s.Writes)+len(s.Returns)+len(s.WritesGlobals)+len(s.Reads) != before
 }
 
 func (m *Mod) callEffects(fn *ssa.Function, instr ssa.CallInstruction, memo map[ssa.Value]*rootSet, mark func(*rootSet, token.Pos)) {
@@ -399,6 +415,14 @@ func (m *Mod) callEffects(fn *ssa.Function, instr ssa.CallInstruction, memo map[
 		case "copy", "append", "clear", "delete":
 			if len(common.Args) > 0 && bi.Name() != "append" {
 				mark(m.rootsOf(fn, common.Args[0], memo, 0), instr.Pos())
+			}
+			for k, a := range common.Args {
+				if (bi.Name() == "copy" && k == 0) || !pointerLike(a.Type()) {
+					continue
+				}
+				for i := range m.rootsOf(fn, a, memo, 0).params {
+					m.Sum[fn].Reads[i] = true
+				}
 			}
 			// append writes into spare capacity of its first argument; the
 			// repo only appends to locally made slices or returns the result,
@@ -410,6 +434,13 @@ func (m *Mod) callEffects(fn *ssa.Function, instr ssa.CallInstruction, memo map[
 	if len(targets) > 0 {
 		for _, t := range targets {
 			cs := m.Sum[t.fn]
+			for pi := range cs.Reads {
+				if pi < len(t.args) {
+					for i := range m.rootsOf(fn, t.args[pi], memo, 0).params {
+						m.Sum[fn].Reads[i] = true
+					}
+				}
+			}
 			for pi := range cs.Writes {
 				if pi < len(t.args) {
 					mark(m.rootsOf(fn, t.args[pi], memo, 0), instr.Pos())
@@ -439,6 +470,13 @@ func (m *Mod) callEffects(fn *ssa.Function, instr ssa.CallInstruction, memo map[
 	for _, i := range ExternalWrites(name, args, hasRecv) {
 		if i < len(args) {
 			mark(m.rootsOf(fn, args[i], memo, 0), instr.Pos())
+		}
+	}
+	for _, a := range args {
+		if pointerLike(a.Type()) {
+			for i := range m.rootsOf(fn, a, memo, 0).params {
+				m.Sum[fn].Reads[i] = true // external callees may read anything they are given
+			}
 		}
 	}
 }
